@@ -315,19 +315,25 @@ func (p *Program) runJobsL(fns []*ssa.Function, lemmas []*Contract, cfg SolverCf
 					name, a string
 					secs    float64
 				}
-				ch := make(chan ans, 2)
+				ch := make(chan ans, 3)
 				ctx, cancel := context.WithTimeout(context.Background(), time.Duration(cfg.TimeoutMs+2000)*time.Millisecond)
-				for _, inc := range []bool{false, true} {
-					go func(inc bool) {
+				for _, variant := range []int{0, 1, 2} {
+					go func(variant int) {
+						inc := variant == 1
 						t0 := time.Now()
 						sc, name := q.nq, "z3-5.1.0-noext (instances only)"
 						if inc {
 							sc, name = strings.Replace(sc, "(check-sat)", "(push 1)\n(check-sat)", 1), "z3-5.1.0-noext-inc (instances only)"
 						}
+						if variant == 2 {
+							// the day-number function left uninterpreted (sound: fewer facts); most obligations only need
+							// "the day number moved by k"
+							sc, name = opaqueCalendar(sc), "z3-5.1.0-noext-opaquecal (instances only)"
+						}
 						out, _ := runSolver(ctx, "z3-new", []string{"-in", "smt.array.extensional=false"}, sc)
 						a, _ := solverAnswer(out)
 						ch <- ans{name, a, time.Since(t0).Seconds()}
-					}(inc)
+					}(variant)
 				}
 				// the full portfolio (with the quantified hypotheses) runs at the same time: whichever settles it first
 				pfDone := make(chan *Obligation, 1)
@@ -336,7 +342,7 @@ func (p *Program) runJobsL(fns []*ssa.Function, lemmas []*Contract, cfg SolverCf
 					portfolioScript(q.j, tmp, q.script, cfg)
 					pfDone <- tmp
 				}()
-				pending := 2
+				pending := 3
 				var pfRes *Obligation
 				for pending > 0 || pfRes == nil {
 					select {
